@@ -8,6 +8,7 @@ import (
 	"io"
 	"net/url"
 	"strings"
+	"unicode/utf8"
 
 	"github.com/tdewolff/minify/v2"
 	"github.com/tdewolff/minify/v2/css"
@@ -174,6 +175,14 @@ func buildHost(tape *sim.Tape, bad bool) *c11Host {
 		k := tape.Draw(15)
 		if i == badAt {
 			k = []int{0, 2}[tape.Draw(2)]
+			// text in other scripts earlier on the line of the failing element, or a line
+			// separator that is not \n: the reported position must still point into it
+			switch tape.Draw(4) {
+			case 0:
+				doc.WriteString("<p>Überschrift – żółć ✓ 日本語のテキスト</p>")
+			case 1:
+				doc.WriteString("<p>a\u2028b</p>")
+			}
 		}
 		switch k {
 		case 0:
@@ -197,7 +206,11 @@ func buildHost(tape *sim.Tape, bad bool) *c11Host {
 			if i == badAt {
 				pl = []byte(c11BadPayloads["application/ld+json"][0])
 			}
-			add("<script type=\"application/ld+json\">", c11Slot{MT: "application/ld+json", Payload: pl, Ctx: "<script type=ld+json>"}, "</script>\n")
+			// the attribute VALUE is what counts: character references are decoded and blanks
+			// around it ignored, like for every other attribute
+			open := []string{"<script type=\"application/ld+json\">", "<script type=\"application/ld+json\">", "<script type=\"application/ld&#43;json\">",
+				"<script type=\"application&#x2F;ld+json\">", "<script type=\"  application/ld+json \">", "<script type='application/ld&plus;json'>"}[tape.Draw(6)]
+			add(open, c11Slot{MT: "application/ld+json", Payload: pl, Ctx: "<script type=ld+json>"}, "</script>\n")
 		case 3:
 			if tape.Draw(3) == 0 {
 				// parameters in the type attribute reach the minifier as a map
@@ -618,16 +631,32 @@ func canonMT(mt string) string {
 
 // offsetOf converts a 1-based line/column (columns count bytes here: the test documents
 // are ASCII) to a byte offset.
+// offsetOf turns a reported (line, column) into a byte offset, with the convention the parse
+// library documents for its positions: lines end at \n, \r\n, \r (and U+2028 / U+2029),
+// columns count characters, not bytes.
 func offsetOf(doc []byte, line, col int) int {
 	off := 0
-	for l := 1; l < line; l++ {
-		i := bytes.IndexByte(doc[off:], '\n')
-		if i < 0 {
+	for l := 1; l < line; {
+		if off >= len(doc) {
 			return len(doc)
 		}
-		off += i + 1
+		r, n := utf8.DecodeRune(doc[off:])
+		off += n
+		switch {
+		case r == '\n' || r == '\u2028' || r == '\u2029':
+			l++
+		case r == '\r':
+			if off < len(doc) && doc[off] == '\n' {
+				off++
+			}
+			l++
+		}
 	}
-	return off + col - 1
+	for c := 1; c < col && off < len(doc); c++ {
+		_, n := utf8.DecodeRune(doc[off:])
+		off += n
+	}
+	return off
 }
 
 func c11Search(s *Search) {
